@@ -735,3 +735,154 @@ func escapesByReturn(fn *ssa.Function, v *ssa.Call) string {
 func isErrorT(t types.Type) bool {
 	return types.Identical(t, types.Universe.Lookup("error").Type())
 }
+
+// callerSliceRules: a slice of values (not a byte buffer) that a struct keeps
+// without copying - it was stored from a parameter, or the field is exported
+// and filled in by the application - still belongs to the caller. The library
+// may replace or re-slice the field, but a store into its elements changes the
+// caller's own slice (which the caller may have attached to another object).
+func callerSliceRules(c *Ctx, prop string) {
+	rule := prop + ".caller-slices-not-written"
+	c.R.Rule(rule, 1, "no element store goes into a slice field that holds the caller's own slice (stored from a parameter without a copy, or an exported field)")
+	type fkey struct {
+		t *types.Named
+		i int
+	}
+	owned := map[fkey]string{}
+	fieldOf := func(fa *ssa.FieldAddr) (fkey, *types.Var, bool) {
+		pt, ok := fa.X.Type().Underlying().(*types.Pointer)
+		if !ok {
+			return fkey{}, nil, false
+		}
+		n, ok := pt.Elem().(*types.Named)
+		if !ok {
+			return fkey{}, nil, false
+		}
+		st, ok := n.Underlying().(*types.Struct)
+		if !ok || n.Obj().Pkg() == nil || !inModulePkg(n.Obj().Pkg().Path()) {
+			return fkey{}, nil, false
+		}
+		return fkey{n, fa.Field}, st.Field(fa.Field), true
+	}
+	valueSlice := func(t types.Type) bool {
+		sl, ok := t.Underlying().(*types.Slice)
+		if !ok {
+			return false
+		}
+		b, isBasic := sl.Elem().Underlying().(*types.Basic)
+		return !(isBasic && (b.Kind() == types.Byte || b.Kind() == types.Uint8))
+	}
+	funcs := c.P.AllModuleFuncs()
+	// 1. which fields hold a caller's slice
+	for _, fn := range funcs {
+		for _, b := range fn.Blocks {
+			for _, in := range b.Instrs {
+				st, ok := in.(*ssa.Store)
+				if !ok {
+					continue
+				}
+				fa, ok := st.Addr.(*ssa.FieldAddr)
+				if !ok {
+					continue
+				}
+				k, fv, ok := fieldOf(fa)
+				if !ok || !valueSlice(fv.Type()) {
+					continue
+				}
+				v := st.Val
+				for {
+					if sl, ok := v.(*ssa.Slice); ok {
+						v = sl.X
+						continue
+					}
+					break
+				}
+				if p, ok := v.(*ssa.Parameter); ok {
+					owned[k] = "stored from parameter " + p.Name() + " of " + astFuncName(fn) + " without a copy"
+				}
+			}
+		}
+	}
+	for _, sp := range c.P.ModulePkgs() {
+		for _, mem := range sp.Members {
+			tn, ok := mem.(*ssa.Type)
+			if !ok || !tn.Object().Exported() {
+				continue
+			}
+			n, ok := tn.Type().(*types.Named)
+			if !ok {
+				continue
+			}
+			st, ok := n.Underlying().(*types.Struct)
+			if !ok {
+				continue
+			}
+			for i := 0; i < st.NumFields(); i++ {
+				if st.Field(i).Exported() && valueSlice(st.Field(i).Type()) {
+					if _, has := owned[fkey{n, i}]; !has {
+						owned[fkey{n, i}] = "exported field, filled in by the application"
+					}
+				}
+			}
+		}
+	}
+	// 2. element stores into them
+	n := 0
+	var bad []string
+	badPos := ""
+	for _, fn := range funcs {
+		for _, b := range fn.Blocks {
+			for _, in := range b.Instrs {
+				st, ok := in.(*ssa.Store)
+				if !ok {
+					continue
+				}
+				ia, ok := st.Addr.(*ssa.IndexAddr)
+				if !ok {
+					continue
+				}
+				v := ia.X
+				for {
+					if sl, ok := v.(*ssa.Slice); ok {
+						v = sl.X
+						continue
+					}
+					break
+				}
+				ld, ok := v.(*ssa.UnOp)
+				if !ok {
+					continue
+				}
+				fa, ok := ld.X.(*ssa.FieldAddr)
+				if !ok {
+					continue
+				}
+				k, fv, ok := fieldOf(fa)
+				if !ok {
+					continue
+				}
+				why, isOwned := owned[k]
+				if !isOwned {
+					continue
+				}
+				n++
+				bad = append(bad, fmt.Sprintf("%s stores into an element of %s.%s (%s) at %s", astFuncName(fn), k.t.Obj().Name(), fv.Name(), why, c.P.Pos(st.Pos())))
+				if badPos == "" {
+					badPos = c.P.Pos(st.Pos())
+				}
+			}
+		}
+	}
+	c.R.Sites += len(owned)
+	names := make([]string, 0, len(owned))
+	for k := range owned {
+		names = append(names, k.t.Obj().Name()+"."+k.t.Underlying().(*types.Struct).Field(k.i).Name())
+	}
+	sort.Strings(names)
+	if len(bad) > 0 {
+		sort.Strings(bad)
+		c.R.Fail(rule, rule+"/element-stores", badPos, fmt.Sprintf("%d store(s) change a slice that belongs to the caller; first: %s", len(bad), bad[0]))
+	} else {
+		c.R.OK(rule, rule+"/element-stores", "-", fmt.Sprintf("%d caller-owned slice fields (%s): replaced or re-sliced only, never written element-wise", len(owned), strings.Join(names, ", ")))
+	}
+}
